@@ -758,6 +758,8 @@ func corpusMoment() []Case {
 // corpusDST: minimised witnesses of the DST defects (168 h added as a week; AddDate applied to a moment moved by a gap)
 func corpusDST() []Case {
 	var cs []Case
+	// open finding C19-next-moment-in-a-midnight-gap: on the eve of a DST start at local midnight, a moment inside the skipped hour
+	cs = append(cs, Case{Kind: "inst", Zone: zHavana, Local: zHavana, T: at(zHavana, 2099, 3, 7, 23, 56, 40, 0), W: 1, Kw: 0, Nd: 0, H: 0, M: 12, S: 32, Class: "dst-witness"})
 	// week window whose week has 169 h: anchor Sunday 23:30 EST after the fall-back
 	cs = append(cs, Case{Kind: "inst", Zone: zNY, Local: zNY, T: at(zNY, 2024, 11, 3, 23, 30, 0, 0), W: 1, Kw: 0, Nd: 0, H: 12, M: 0, S: 0, Class: "dst-witness"})
 	// relative week start: now - 168 h lands on the previous day across the spring-forward
